@@ -63,6 +63,31 @@ theorem C15_converge (snap : Nat → Content) (init : Option Content) (ls : List
   · rcases hdone j with e | ⟨r, e⟩ <;> simp [e, Pc.carries] at hc
   · exact hc
 
+/-- The lock never wedges the saving (repaired code, all schedules, faults included): as long as
+    the process lives and some submitted job has not finished, some job can take a step — the
+    lock is held only by a job that is inside the critical section and can always move on, and
+    every path out of it (return, re-raise, failing cleanup) releases the lock.  So the
+    quiescent states `C15_converge` speaks about are always reachable. -/
+theorem C15_progress (snap : Nat → Content) (init : Option Content) (ls : List Label) (s : Sys)
+    (h : exec true snap ls (initSys init) = some s) (hc : s.crashed = false)
+    (hj : ∃ j, s.jobs j ≠ .unspawned ∧ (s.jobs j).isDone = false) :
+    ∃ j s', step true snap s (.adv j) = some s' := by
+  have hm := mutex_exec ls (mutex_init init) h
+  have hh := held_exec (init := init) ls (atomInv_init snap init) (mutex_init init)
+    (held_init init) h
+  simp only [step, hc]
+  cases hl : s.lock with
+  | some i =>
+    obtain ⟨s', hs'⟩ := adv_enabled_of_inCS (snap := snap) (hh i hl)
+    exact ⟨i, s', by simpa using hs'⟩
+  | none =>
+    obtain ⟨j, hsp, hnd⟩ := hj
+    by_cases hcs : (s.jobs j).inCS = true
+    · have := hm j hcs
+      rw [hl] at this; cases this
+    · refine ⟨j, ?_⟩
+      cases hpc : s.jobs j <;> simp_all [Pc.inCS, Pc.isDone, adv]
+
 /-! ### the code as shipped (no lock): the reordering counterexample -/
 
 /-- a concrete two-chunk serialisation -/
